@@ -7,6 +7,7 @@
 using namespace vf;
 
 struct Item { long long key; long long id; };
+VF_DECOY_ORDER(Item, key)
 struct ByKeyLess { bool operator()(const Item& a, const Item& b) const { return a.key < b.key; } };
 struct ByKeyGreaterMirror { bool operator()(const Item& a, const Item& b) const { return -a.key > -b.key; } };
 struct ByKeyWeak { bool operator()(const Item& a, const Item& b) const { return a.key < b.key; } };   // ids never consulted: equal keys are equivalent
